@@ -464,7 +464,7 @@ def oracle(line, ans, rng=None, checks=("at", "leq", "entails", "csts", "bot"), 
                     v = None
                     if f == "add": v = a1 + b1
                     elif f == "sub": v = a1 - b1
-                    elif f == "mul": v = a1 * b1
+                    elif f == "mul": v = a1 * b1 if (a1.bit_length() + b1.bit_length() <= 4096) else None   # else: sample dropped
                     elif f == "sdiv": v = tdiv(a1, b1) if b1 != 0 else None
                     elif f == "srem": v = trem(a1, b1) if b1 != 0 else None
                     elif f == "udiv": v = a1 // b1 if (a1 >= 0 and b1 > 0) else None
